@@ -293,7 +293,11 @@ func c05Body(x *explore.Ctx, sh c05Shape, readerIsServer bool, rbs, fi int, tier
 				mayS++
 			}
 		}
-		x.Check(len(abandoned) <= mayS+1, key("abandon-delivered-after-fault"), "%d messages were handed out although the fault at offset %d allows at most %d (+1 partial)", len(abandoned), cut, mayS)
+		// (after a one-shot fault the transport goes on delivering the rest of the stream: a reader
+		// that reports the fault a little later has not truncated or invented anything, so only the
+		// content checks and "an error is reported" apply; with a persisting fault nothing beyond the
+		// cut exists, so more messages than arrived can only have been made up)
+		x.Check(oneShot || len(abandoned) <= mayS+1, key("abandon-delivered-after-fault"), "%d messages were handed out although the fault at offset %d allows at most %d (+1 partial)", len(abandoned), cut, mayS)
 		x.Check(len(abandoned) >= mustS, key("lost-complete"), "%d messages had completely arrived before the fault but only %d were handed out before the error %v", mustS, len(abandoned), firstErr)
 		for i, m := range abandoned {
 			x.Check(i < len(msgs) && m.Type == msgs[i].Type && bytes.HasPrefix(msgs[i].Payload, m.Payload), key("corrupt"), "abandoned message %d differs from what was sent", i)
@@ -308,7 +312,7 @@ func c05Body(x *explore.Ctx, sh c05Shape, readerIsServer bool, rbs, fi int, tier
 			may++
 		}
 	}
-	x.Check(len(got) <= may, key("truncated-as-complete"), "%d messages reported complete but only %d had completely arrived (cut %d of %d); last reported %s", len(got), may, cut, len(stream), fmtMsgs(got[max(0, len(got)-1):]))
+	x.Check(oneShot || len(got) <= may, key("truncated-as-complete"), "%d messages reported complete but only %d had completely arrived (cut %d of %d); last reported %s", len(got), may, cut, len(stream), fmtMsgs(got[max(0, len(got)-1):]))
 	for i, m := range got {
 		x.Check(m.Type == msgs[i].Type && bytes.Equal(m.Payload, msgs[i].Payload), key("corrupt"), "message %d reported complete differs from what was sent: %s vs %s", i, short(m.Payload), short(msgs[i].Payload))
 	}
